@@ -460,6 +460,11 @@ var _ = gots.ErrNoPayload
 
 func specP(data []byte) int { return int(data[0]) }
 
+// specU33: the 33-bit field whose top bit is the low bit of data[k], followed by four whole bytes.
+func specU33(data []byte, k int) uint64 {
+	return uint64(data[k]%2)<<32 | uint64(data[k+1])<<24 | uint64(data[k+2])<<16 | uint64(data[k+3])<<8 | uint64(data[k+4])
+}
+
 //@ func (s *scte35) parseTable(data []byte) error
 //@   props C05 C08
 //@   requires s != nil && (cap(s.otherDescriptorBytes) == 0 || verifSeparate(s.otherDescriptorBytes, data))
@@ -475,7 +480,7 @@ func specP(data []byte) int { return int(data[0]) }
 //@   loop 1 (bytesRead uint16, buf *bytes.Buffer, descriptorLoopLength uint16)
 //@     invariant s != nil && verifBufOK(buf) && bytesRead <= descriptorLoopLength
 //@     invariant cap(s.otherDescriptorBytes) == 0 || verifSeparate(s.otherDescriptorBytes, data)
-//@     invariant s.tableHeader.TableID == 0xfc && s.protocolVersion == pre(s.protocolVersion) && s.cwIndex == pre(s.cwIndex) && s.tier == pre(s.tier) && s.commandType == pre(s.commandType)
+//@     invariant s.tableHeader.TableID == 0xfc && s.protocolVersion == pre(s.protocolVersion) && s.cwIndex == pre(s.cwIndex) && s.tier == pre(s.tier) && s.commandType == pre(s.commandType) && s.pts == pre(s.pts)
 //@     invariant fresh(s.otherDescriptorBytes) || !verifSeparate(s.otherDescriptorBytes, old(s.otherDescriptorBytes)) || cap(s.otherDescriptorBytes) == 0
 //@     invariant fresh(s.descriptors) || !verifSeparate(s.descriptors, old(s.descriptors)) || cap(s.descriptors) == 0
 //@     invariant forall j in 0..len(data) :: data[j] == old(verifSnap(data))[j]
